@@ -1015,9 +1015,9 @@ static void resolve_statics(void)
 		M.c_d[r] = sim_symbol_addr(nm);
 		snprintf(nm, sizeof(nm), "r%d_nodes_to_end", r);
 		M.nodes_to_end[r] = sim_symbol_addr(nm);
-		if(!M.thr_to_end[r] || !M.c_b[r]) {
-			fprintf(stderr, "HARNESS: cannot resolve gvt/termination statics of rank %d\n", r);
-			abort();
+		if(!M.thr_to_end[r] || !M.c_b[r] || !M.c_d[r]) {
+			sim_note("cannot resolve the core's static variables thr_to_end / c_b / c_d of rank %d: the harness must be adapted", r);
+			sim_finish("harness");
 		}
 	}
 }
